@@ -395,6 +395,9 @@ def wide_ops(c, N, sz, r, kind):
     lens = sorted({0, 1, 2, max(N - sz - 1, 0), N - sz, N - sz + 1, N - 1, N, N + 1, min(2 * N + 1, 600)} | steered_lens(N))
     if kind == "push":
         return fam_push(c, N, sz)
+    if kind == "forget":
+        return ["drain i%d e%d %s forget" % (a, b, scr) for (a, b) in sparse_ranges(sz, r)
+                for scr in ("-", "n", "b", "n,b,l")]
     if kind in ("mut", "all"):
         out += fam_push(c, N, sz) + fam_pop(c, N, sz) + ["clear", "make_contiguous -"]
         for i in I:
